@@ -183,7 +183,14 @@ func (op *Element[T]) Resize(degree, level int) {
 
 // CopyNew creates a deep copy of the object and returns it.
 func (op Element[T]) CopyNew() *Element[T] {
-	return &Element[T]{Value: op.Value.CopyNew(), MetaData: op.MetaData.CopyNew()}
+	opCpy := &Element[T]{Value: op.Value.CopyNew()}
+
+	// An element without metadata is a supported (and serializable) state.
+	if op.MetaData != nil {
+		opCpy.MetaData = op.MetaData.CopyNew()
+	}
+
+	return opCpy
 }
 
 // Copy copies opCopy on op, up to the capacity of op (similarely to copy([]byte, []byte)).
